@@ -254,6 +254,10 @@ func halfRelated(r *gen.Rng) *big.Int {
 			}
 		}
 	}
+	if r.Bool() {
+		// the shape of a GLV half: below 2^128 (such a scalar is its own first half)
+		l[2], l[3] = 0, 0
+	}
 	return oracle.Mod(oracle.FromLimbs(l), bigN)
 }
 
